@@ -9,7 +9,7 @@ VT = ("pycaption.webvtt.WebVTTWriter._timestamp",)
 
 
 def obligations(tier):
-    T = 120 if tier == "quick" else 400
+    T = 200 if tier == "quick" else 600
     B24 = "all integer instants 0 <= us < 24 h"
     obs = [
         ch("fmt_start_dot", "harness.C02_fmt", timeout=T, bounds=B24, functions=FM),
@@ -19,6 +19,24 @@ def obligations(tier):
         ch("vtt_short", "harness.C02_fmt", timeout=T, bounds="all us < 1 h", functions=VT),
         ch("vtt_long", "harness.C02_fmt", timeout=T, bounds="all 1 h <= us < 24 h", functions=VT),
     ]
+    W = ("SRTWriter.write", "SRTWriter._recreate_lang", "Caption.format_start/format_end")
+    for f, b in (("srt_write_a0", "cue 1 start in [0, 5 s], cue 2 = (2 s, 5 s): merge iff equal"), ("srt_write_b1", "cue 2 end >= 1:02:03.004"),
+                 ("srt_write_a2", "cue 3 start, all instants")):
+        obs.append(ch(f, "harness.C02_writers", timeout=T * 2, functions=W, bounds=f"3 captions, one symbolic instant: {b}"))
+    V = ("WebVTTWriter.write", "_convert_caption", "_timestamp")
+    for f, b in (("vtt_write_a0", "cue 1 start in [0, 2 h]"), ("vtt_write_b1_long", "cue 2 end in [1 h, 2 h)"), ("vtt_write_b1_short", "cue 2 end < 1 h")):
+        obs.append(ch(f, "harness.C02_writers", timeout=T * 2, functions=V, bounds=f"2 captions, one symbolic instant: {b}"))
+    obs.append(ch("mdvd_write1", "harness.C02_writers", timeout=T * 2, functions=("MicroDVDWriter.write", "_recreate_lang"),
+                  bounds="2 captions, first with symbolic start <= end < 24 h; _microtoframes replaced by its E2-proved contract"))
+    D = ("DFXPWriter._recreate_p_tag", "LegacyDFXPWriter._recreate_p_tag", "Caption.format_start/format_end")
+    for f in ("dfxp_p_begin", "dfxp_p_end", "legacy_p_begin_end"):
+        obs.append(ch(f, "harness.C02_writers", timeout=T * 2, functions=D, bounds=B24 + "; bs4 replaced by contract stub"))
+    S = ("SAMIWriter._recreate_p_tag", "_recreate_sync", "_recreate_blank_tag")
+    obs.append(ch("sami_sync_2", "harness.C02_sami", timeout=T, functions=S, bounds="2 cues of one language, all ordered instants < 24 h"))
+    obs.append(ch("sami_sync_3", "harness.C02_sami", timeout=T, functions=S, bounds="3 cues of one language, all ordered instants < 24 h"))
+    obs.append(ch("sami_sync_float", "harness.C02_sami", timeout=T, functions=S, exhaustive=True,
+                  bounds="2 cues, float instants chosen among 5 SCC frame instants (70 ordered choices)"))
+    obs.append(smt("microdvd_frames", "smt.C02_fp", "microdvd_write", timeout=600, engine="E2 fplia (AST -> QF_LIA, z3)"))
     return obs
 
 
